@@ -90,7 +90,7 @@ def render(c):
 
 def run(pid, tier, seed, replay):
     ck = Check(pid, tier, seed, level="proof")
-    n = 150 if tier == "quick" else 3000
+    n = 150 if tier == "quick" else 4000
     ck.proof_step(extra_targets=["Model/CatalogSM.vo"])
     ok, out, dt = vlib.cargo_build("h_core", bin="c49")
     ck.log("cargo build: ok=%s (%.0fs)" % (ok, dt))
